@@ -563,12 +563,24 @@ class Sym:
             if a.num is None:
                 a, b = b, a
             k = _const_int(b)
-            if k is None and _const_frac(b) == Fraction(1, 2) and a.d is None:
-                # 0.5 * (p + log(n/d)) = p/2 + log(sqrt(n)/sqrt(d))
-                c = _ctx()
-                sn, sd = c.sqrt_term(a.num), c.sqrt_term(a.den)
-                if sn is not None and sd is not None:
-                    return Sym(a.real() * rv(Fraction(1, 2)), sn, sd)
+            if k is None and a.d is None and _const_frac(b) is not None:
+                # rational multiple m/q (q = 2 or 3) of p + log(n/d):  (m/q) p + log(root_q(n)^m / root_q(d)^m).
+                # A float constant such as 1/3 - 1 is taken as the simple fraction it approximates to 1e-15.
+                f = _const_frac(b)
+                g = f.limit_denominator(6)
+                if g.denominator in (2, 3) and abs(float(f) - float(g)) <= 1e-15 * max(1.0, abs(float(g))):
+                    c = _ctx()
+                    root = c.sqrt_term if g.denominator == 2 else c.cbrt_term
+                    rn, rd = root(a.num), root(a.den)
+                    if rn is not None and rd is not None:
+                        m = g.numerator
+                        if g.denominator == 3:
+                            c.add_hyp(z3.And(z3.Implies(a.num >= 0, rn >= 0), z3.Implies(a.den > 0, rd > 0)))
+                        if m < 0:
+                            if not c.domain(a.num > 0, "negative multiple of -inf"):
+                                return math.inf
+                            rn, rd, m = rd, rn, -m
+                        return Sym(a.real() * rv(g), _pow(rn, m), _pow(rd, m))
             if k is None:
                 return _ctx().opaque("mul", a, b)
             if k >= 0:
